@@ -158,6 +158,42 @@ extern "C" void harness()
 	vf_end();
 }
 
+#elif CLASS == 4
+// ----------------------------------------------------------------------------------------------- AnyData (C17 x C09)
+// An AnyData built from / moved with a value whose copy or move throws: the exception arrives, no held object is destroyed that was never
+// constructed, nothing leaks, and a successfully built holder reads back the value.
+struct BigPay { TPay p; uint32_t pad[20]; explicit BigPay(uint32_t x) : p(x) { for(int i = 0; i < 20; i++) pad[i] = x + i; } };   // larger than the inline capacity
+using AD = eventpp::AnyData<32>;
+template <typename V> static uint32_t val_of(const V & x);
+template <> uint32_t val_of<TPay>(const TPay & x) { return x.v; }
+template <> uint32_t val_of<BigPay>(const BigPay & x) { return x.p.v; }
+template <typename V> static void run_anydata(uint32_t x)
+{
+	V src(x);
+	const int base = g_live_pay;
+	AD * h = nullptr;
+	bool failed = with_faults([&]() { h = new AD(src); });
+	if(failed) { vf_assert(h == nullptr, 470); vf_cover(COV_STRONG_OP_FAILED); }
+	else {
+		vf_assert(g_live_pay == base + 1, 471);
+		vf_assert(h->isType<V>() && val_of(h->get<V>()) == x, 472);
+		AD * h2 = nullptr;
+		bool failed2 = with_faults([&]() { h2 = new AD(std::move(*h)); });
+		if(! failed2) { vf_assert(val_of(h2->get<V>()) == x, 473); delete h2; } else vf_assert(h2 == nullptr, 474);
+		delete h;
+	}
+	vf_assert(g_live_pay == base, 475);         // every held object destroyed exactly once, none leaked
+	vf_assert(val_of(src) == x, 476);           // a failed or successful copy leaves the source untouched
+}
+extern "C" void harness()
+{
+	uint32_t x = vf_nondet_u32();
+	if(vf_choose(2)) run_anydata<TPay>(x); else run_anydata<BigPay>(x);
+	vf_assert(g_live_pay == 0, 477);
+	vf_assert(g_bad == 0, 478);                 // no destructor ran on storage that never held an object
+	vf_end();
+}
+
 #elif CLASS == 1
 // ----------------------------------------------------------------------------------------------- event queue
 struct QCb { uint32_t id; explicit QCb(uint32_t i) : id(i) {} void operator()(const TPay & p) const { if(p.magic != 0xFA1u) ++g_bad; g_tr.add(id, p.v, 0); fault_point(2); } };
@@ -280,7 +316,7 @@ extern "C" void harness()
 	TCb base(1);
 	D::Handle hbase = d->appendListener(EVK(1), [base](uint32_t a) { base(a); });
 	int n = 1;
-	unsigned op = vf_choose(8);
+	unsigned op = vf_choose(9);
 	unsigned how = op <= 1 ? vf_choose(3) : 0;  // registered through append / prepend / insert-before
 	if(op == 0) {                               // add a listener: strong guarantee
 		TCb cb(2);
@@ -344,6 +380,18 @@ extern "C" void harness()
 		delete r;
 		vf_assert(count_listeners(*d) == n, 467);
 		delete d2;
+	}
+	else if(op == 8) {                          // C16 x C09: a counted listener whose invocation throws has still been invoked: count 2 = the first two triggers, never a third
+		{ eventpp::CounterRemover<D> r(*d); TCb cb(9); r.prependListener(EVK(1), [cb](uint32_t a) { cb(a); }, 2); }
+		int calls = 0;
+		for(int t = 0; t < 3; t++) {
+			g_tr.clear();
+			if(t < 2) with_faults([&]() { d->dispatch(EVK(1), 20u + t); }); else d->dispatch(EVK(1), 22u);
+			int c = 0; for(int i = 0; i < g_tr.n; i++) if(g_tr.e[i].id == 9) c++;
+			vf_assert(c == (t < 2 ? 1 : 0), 468);      // it is the first listener: reached on every trigger while attached
+			calls += c;
+		}
+		vf_assert(calls == 2, 469);
 	}
 	else {                                      // dispatch with a throwing listener, then copy the dispatcher under faults
 		g_tr.clear();
